@@ -68,7 +68,9 @@ func (o *poolObs) startReplica(s *Sim, g *Gen) {
 	r := &poolReplica{dir: filepath.Join(s.dir, "c20rep-0"), cfg: s.lcfg}
 	// a different flush state: the tracker DB of the replica lags the blocks by a different amount
 	r.cfg.MaxAcctLookback = uint64(1 + (int(s.lcfg.MaxAcctLookback)+2+g.n(5))%8)
-	r.cfg.DisableLedgerLRUCache = !s.lcfg.DisableLedgerLRUCache
+	// no LRU caches on the replica (the primary has them in 2 of 3 runs): every lookup that is not in the
+	// in-memory deltas goes to the tracker DB; it also keeps the replica's restarts cheap in real time
+	r.cfg.DisableLedgerLRUCache = true
 	r.cfg.CatchpointInterval = 0
 	r.cfg.CatchpointTracking = 0
 	r.cfg.VerifiedTranscationsCacheSize = 2000
